@@ -197,3 +197,123 @@ Proof.
     exact (graph_resolve_total nat Nat.eqb Nat.eqb_eq _ order order_perm _ _ _ _ Hden).
 Qed.
 Print Assumptions C20_resolve_model_exact.
+
+(* ---- Round 12: ForestToParseTree / TreeForestTransformer on the forest as lark builds it (Forest/GraphTft.v): the
+   label-keyed, possibly CYCLIC graph, both modes, use_cache=False.  [tft_walk] is the walk as coded (every branch
+   condition regenerated from earley_forest.py: Gen/ForestWalk.v; state: retreat flag, cycle node, membership in
+   _successful_visits, the data lists), recording every callback with what transform_* receive; [gta]/[graph_tft] is
+   the plain function it computes.  The walk terminates on every finite forest ... *)
+From LV Require Import Forest.GraphTft Forest.GraphTft_proofs.
+
+Theorem C20_tft_walk_terminates (tok : Type) (teqb : tok -> tok -> bool)
+  (teqb_spec : forall a b, teqb a b = true <-> a = b)
+  (fams : list (nlabel tok * family tok)) (order : nlabel tok -> list (family tok) -> list (family tok))
+  (order_perm : forall l fs f, In f (order l fs) <-> In f fs) resolve root :
+  exists r, tft_walk tok teqb fams order resolve root = Ok r.
+Proof. exact (tft_walk_terminates tok teqb teqb_spec fams order order_perm resolve root). Qed.
+Print Assumptions C20_tft_walk_terminates.
+
+(* ... and on a closed forest (every referenced symbol node has a packed child) returns what the plain function
+   computes: a node on the path has no alternative (on_cycle, retreat), a packed node the products of its children's,
+   a symbol node those of all its packed children in `children` order (or of the first that has any) *)
+Theorem C20_tft_walk_computes (tok : Type) (teqb : tok -> tok -> bool)
+  (teqb_spec : forall a b, teqb a b = true <-> a = b)
+  (fams : list (nlabel tok * family tok)) (order : nlabel tok -> list (family tok) -> list (family tok))
+  (order_perm : forall l fs f, In f (order l fs) <-> In f fs) resolve
+  (closed : forall lbl r l rt c, in_forest tok fams lbl (r, l, rt) -> In c (olist l ++ olist rt) ->
+     is_tok tok c = false -> fams_of tok teqb fams c <> []) root tr res :
+  (is_tok tok root = false -> fams_of tok teqb fams root <> []) ->
+  tft_walk tok teqb fams order resolve root = Ok (tr, res) ->
+  res = match gta tok teqb fams order resolve (tw_fuel tok fams) [] root with [] => None | v => Some v end.
+Proof. exact (tft_walk_computes tok teqb teqb_spec fams order order_perm resolve closed root tr res). Qed.
+Print Assumptions C20_tft_walk_computes.
+
+(* both modes, every forest: each tree the result stands for is a finite unfolding the forest stores, and there is one *)
+Theorem C20_graph_tft_sound (tok : Type) (teqb : tok -> tok -> bool)
+  (teqb_spec : forall a b, teqb a b = true <-> a = b)
+  (fams : list (nlabel tok * family tok)) (order : nlabel tok -> list (family tok) -> list (family tok))
+  (order_perm : forall l fs f, In f (order l fs) <-> In f fs) resolve a i j t :
+  graph_tft tok teqb fams order resolve (NSym tok a i j) = Some t ->
+  (forall d, In d (aexpand tok t) -> den tok (in_forest tok fams) (NSym tok a i j) [d]) /\ aexpand tok t <> [].
+Proof. exact (graph_tft_sound tok teqb teqb_spec fams order order_perm resolve a i j t). Qed.
+Print Assumptions C20_graph_tft_sound.
+
+(* resolve_ambiguity=False on ANY forest: the trees are exactly the unfoldings in which no node occurs below itself
+   ([sden]: what is skipped on a cycle is precisely the packed nodes one of whose children is on the path), and a tree
+   is returned iff the forest stores a finite unfolding at all *)
+Theorem C20_graph_tft_exact (tok : Type) (teqb : tok -> tok -> bool)
+  (teqb_spec : forall a b, teqb a b = true <-> a = b)
+  (fams : list (nlabel tok * family tok)) (order : nlabel tok -> list (family tok) -> list (family tok))
+  (order_perm : forall l fs f, In f (order l fs) <-> In f fs) a i j :
+  (forall t, graph_tft tok teqb fams order false (NSym tok a i j) = Some t ->
+             forall d, In d (aexpand tok t) <-> sden tok fams [] (NSym tok a i j) [d]) /\
+  (graph_tft tok teqb fams order false (NSym tok a i j) <> None <->
+   exists d, den tok (in_forest tok fams) (NSym tok a i j) [d]).
+Proof. exact (graph_tft_exact tok teqb teqb_spec fams order order_perm false a i j eq_refl). Qed.
+Print Assumptions C20_graph_tft_exact.
+
+(* on an acyclic graph forest (a rank decreasing along every edge): exactly ALL stored unfoldings *)
+Theorem C20_graph_tft_exact_acyclic (tok : Type) (teqb : tok -> tok -> bool)
+  (teqb_spec : forall a b, teqb a b = true <-> a = b)
+  (fams : list (nlabel tok * family tok)) (order : nlabel tok -> list (family tok) -> list (family tok))
+  (order_perm : forall l fs f, In f (order l fs) <-> In f fs)
+  (rk : nlabel tok -> nat)
+  (ranked : forall lbl r l rt c, in_forest tok fams lbl (r, l, rt) -> In c (olist l ++ olist rt) -> rk c < rk lbl)
+  (tok_no_family : forall t x i j f, ~ in_forest tok fams (NTok tok t x i j) f) a i j t :
+  graph_tft tok teqb fams order false (NSym tok a i j) = Some t ->
+  forall d, In d (aexpand tok t) <-> den tok (in_forest tok fams) (NSym tok a i j) [d].
+Proof.
+  intros H d. rewrite (proj1 (graph_tft_exact tok teqb teqb_spec fams order order_perm false a i j eq_refl) t H d).
+  exact (sden_iff_den tok fams rk ranked tok_no_family (NSym tok a i j) [d]).
+Qed.
+Print Assumptions C20_graph_tft_exact_acyclic.
+
+(* layer A + layer B for the executable Earley model: when its forest is acyclic, expanding the `_ambig` nodes of
+   TreeForestTransformer(resolve_ambiguity=False) on it gives exactly the derivation trees of the sentence *)
+Theorem C20_tft_model_exact G start toks
+  (order : nlabel nat -> list (family nat) -> list (family nat))
+  (order_perm : forall l fs f, In f (order l fs) <-> In f fs) (rk : nlabel nat -> nat) :
+  let forest := snd (iearley_parse G start toks) in
+  let root := NSym nat start 0 (List.length toks) in
+  (forall lbl r l rt c, in_forest nat forest lbl (r, l, rt) -> In c (olist l ++ olist rt) -> rk c < rk lbl) ->
+  (forall t x i j f, ~ in_forest nat forest (NTok nat t x i j) f) ->
+  r_out (fst (iearley_parse G start toks)) = Accept ->
+  forall t, graph_tft nat Nat.eqb forest order false root = Some t ->
+  forall d, In d (aexpand nat t) <-> wfd G nat Nat.eqb d (NT start) /\ yield nat d = toks.
+Proof.
+  cbv zeta. intros Hrk Hnt Hacc t Ht d.
+  rewrite (C20_graph_tft_exact_acyclic nat Nat.eqb Nat.eqb_eq _ order order_perm rk Hrk Hnt _ _ _ t Ht d).
+  rewrite (iearley_forest_exact G start toks (or_introl Hacc) [d]). split.
+  - intros [d0 [E H]]. injection E as <-. exact H.
+  - intros H. exists d. auto.
+Qed.
+Print Assumptions C20_tft_model_exact.
+
+(* non-vacuity: a: a | X on "x" (cyc_fams above) - the cyclic alternative is entered, on_cycle is called with the path
+   [a; (a -> a)], the packed node is discarded, the other alternative is kept; both modes return the same tree *)
+Example C20_example_graph_tft :
+  graph_tft nat Nat.eqb cyc_fams (fun _ fs => fs) false (NSym nat 0 0 1) = Some (ANode rx [ALeaf 0 7]) /\
+  tft_walk nat Nat.eqb cyc_fams (fun _ fs => fs) false (NSym nat 0 0 1)
+  = Ok ([TIn (TS (NSym nat 0 0 1)) [TP (NSym nat 0 0 1) (ra, None, Some (NSym nat 0 0 1));
+                                    TP (NSym nat 0 0 1) (rx, None, Some (NTok nat 0 7 0 1))];
+         TIn (TP (NSym nat 0 0 1) (ra, None, Some (NSym nat 0 0 1))) [TS (NSym nat 0 0 1)];
+         TCycle (NSym nat 0 0 1) [TS (NSym nat 0 0 1); TP (NSym nat 0 0 1) (ra, None, Some (NSym nat 0 0 1))];
+         TOut (TP (NSym nat 0 0 1) (ra, None, Some (NSym nat 0 0 1))) [] None;
+         TIn (TP (NSym nat 0 0 1) (rx, None, Some (NTok nat 0 7 0 1))) [TS (NTok nat 0 7 0 1)];
+         TTok 0 7;
+         TOut (TP (NSym nat 0 0 1) (rx, None, Some (NTok nat 0 7 0 1))) [[[ALeaf 0 7]]] (Some [[ANode rx [ALeaf 0 7]]]);
+         TOut (TS (NSym nat 0 0 1)) [[[ANode rx [ALeaf 0 7]]]] (Some [[ANode rx [ALeaf 0 7]]])],
+        Some [[ANode rx [ALeaf 0 7]]]).
+Proof. vm_compute. split; reflexivity. Qed.
+
+(* Histories on one transformer object (finding F50, repaired in /repo: ForestToParseTree.visit() now resets the retreat
+   flag, the cycle node and _successful_visits first; transform() re-pushes its 'result' sentinel and visit_*_in resets
+   data[id(node)]): transform() from ANY object state - e.g. the one left by a walk that an exception aborted - equals
+   transform() on a fresh object.  Not proved (the per-object state node_stack / data is not yet explicit state of the
+   model); the init blocks of transform() and visit() are pinned by the translator (Gen/ForestWalk.v fails closed) and
+   the stream `reuse-history` compares, for every class x callback kind x abort point, the later walks with a fresh
+   object's.  Before the repair the statement was false (stale _on_cycle_retreat: witness in that stream). *)
+Definition C20_transform_after_abort_full_statement : Prop :=
+  forall (obj forest result : Type) (fresh : obj) (transform : obj -> forest -> obj * option result)
+         (reachable : obj -> Prop),
+  forall o f, reachable o -> snd (transform o f) = snd (transform fresh f).
